@@ -5,6 +5,28 @@
 -/
 import SpyneModel.Null
 namespace SpyneModel.Null
+
+/-- the wire path without `_bare_response` (`respondCore` in place of `respond`) -/
+def wireCallCore (F : Facts18) (P : ProtoCfg) (τ : Val → Val) (s : Sig) (impl : List Val → Result)
+    (pos : List Val) (kw : List (String × Val)) : Res Val :=
+  match s.inKeys with
+  | Option.none => .exc "AttributeError"
+  | some keys =>
+    (clientPack keys pos kw).bind fun sent =>
+      (process F s impl (wireRecv P τ s keys sent)).bind fun out =>
+        respondCore P τ s (ignoredOnWire F s out)
+
+theorem Res.map_bind {α β γ : Type} (r : Res α) (f : α → Res β) (g : β → γ) :
+    (r.bind f).map g = r.bind fun a => (f a).map g := by
+  cases r <;> rfl
+
+theorem wireCall_eq_map (F : Facts18) (P : ProtoCfg) (τ : Val → Val) (s : Sig) (impl : List Val → Result)
+    (pos : List Val) (kw : List (String × Val)) :
+    wireCall F P τ s impl pos kw = (wireCallCore F P τ s impl pos kw).map (viewVal P s) := by
+  unfold wireCall wireCallCore
+  cases s.inKeys with
+  | none => rfl
+  | some keys => simp only [Res.map_bind]; rfl
 /-! ### packing -/
 
 theorem overlay_length (F : Facts18) : ∀ (keys : List String) (base : List Val) (kw : List (String × Val)),
@@ -158,7 +180,7 @@ theorem isEmptyWrapper_good (F : Facts18) (h1 : F.ewWrapper = true) (h2 : F.ewMe
 theorem out_agree_ignored (F : Facts18) (hF : F.Good) (P : ProtoCfg) (hP : P.Good) (τ : Val → Val)
     (s : Sig) (x : Val) :
     cbSync F s (wrapOut F s (.ignored x)) = .ok (.ignored x) ∧
-    respond P τ s (ignoredOnWire F s (wrapOut F s (.ignored x))) = .ok (emptyReply s) := by
+    respondCore P τ s (ignoredOnWire F s (wrapOut F s (.ignored x))) = .ok (emptyReply s) := by
   obtain ⟨h1, h2, h3, h4, h5, hw, hc, hi, hew1, hew2⟩ := hF
   have hew := isEmptyWrapper_good F hew1 hew2 s
   obtain ⟨hb, _, hns⟩ := hP
@@ -169,7 +191,7 @@ theorem out_agree_ignored (F : Facts18) (hF : F.Good) (P : ProtoCfg) (hP : P.Goo
       have : wrapOut F s (.ignored x) = .seq [.ignored x] := by simp [wrapOut, hbs, hw, hn]
       rw [this]
       refine ⟨rfl, ?_⟩
-      simp only [ignoredOnWire, respond, hbs, if_true, emptyReply]
+      simp only [ignoredOnWire, respondCore, hbs, if_true, emptyReply]
       have hn' : s.outLen = 0 ∨ s.outLen = 1 := by omega
       rcases hn' with h | h <;> simp [h, takeOut, Res.bind, unwrapWrapped, xfer, singleAs_good P hns]
     · have hge : 2 ≤ s.outLen := by omega
@@ -185,7 +207,7 @@ theorem out_agree_ignored (F : Facts18) (hF : F.Good) (P : ProtoCfg) (hP : P.Goo
         have h0 : s.outLen ≠ 0 := by omega
         have h1' : s.outLen ≠ 1 := by omega
         simp [h0, h1']
-      · simp only [ignoredOnWire, hi, respond, hbs, if_true]
+      · simp only [ignoredOnWire, hi, respondCore, hbs, if_true]
         rw [takeOut_exact P _ _ (by simp)]
         simp only [Res.bind, map_xfer_replicate_none, emptyReply, hbs]
         rw [unwrapWrapped_many P s _ _ hge]
@@ -194,7 +216,7 @@ theorem out_agree_ignored (F : Facts18) (hF : F.Good) (P : ProtoCfg) (hP : P.Goo
     have : wrapOut F s (.ignored x) = .seq [.ignored x] := by simp [wrapOut, hbs]
     rw [this]
     refine ⟨rfl, ?_⟩
-    simp only [ignoredOnWire, respond, hbs, if_false, hb, first, emptyReply]
+    simp only [ignoredOnWire, respondCore, hbs, if_false, hb, first, emptyReply]
     cases s.noReturn <;> simp [xfer]
 
 
@@ -219,7 +241,7 @@ theorem ignoredOnWire_seq_plain (F : Facts18) (s : Sig) (r : Val) (rest : List V
 theorem out_agree_plain (F : Facts18) (hF : F.Good) (P : ProtoCfg) (hP : P.Good) (τ : Val → Val)
     (s : Sig) (r : Val) (hr : r.isIgnored = false) (hok : ResultOk τ s r) :
     (cbSync F s (wrapOut F s r)).bind (fun v => wireView s (.ok v)) =
-      respond P τ s (ignoredOnWire F s (wrapOut F s r)) := by
+      respondCore P τ s (ignoredOnWire F s (wrapOut F s r)) := by
   have hiob := isOutBare_iff F hF s
   obtain ⟨h1, h2, h3, h4, h5, hw, hc, hi, hew1, hew2⟩ := hF
   have hew := isEmptyWrapper_good F hew1 hew2 s
@@ -233,7 +255,7 @@ theorem out_agree_plain (F : Facts18) (hF : F.Good) (P : ProtoCfg) (hP : P.Good)
       have hcond : ¬ (s.style = .wrapped ∧ 2 ≤ s.outLen) := by omega
       rw [if_neg hcond] at hok
       rw [hwo, cbSync_seq_plain F s r [] hr, ignoredOnWire_seq_plain F s r [] hr]
-      simp only [respond, hbs, if_true, hc, hew, h1]
+      simp only [respondCore, hbs, if_true, hc, hew, h1]
       have hn' : s.outLen = 0 ∨ s.outLen = 1 := by omega
       rcases hn' with h0 | h1'
       · have hnr : s.noReturn = true := by
@@ -268,7 +290,7 @@ theorem out_agree_plain (F : Facts18) (hF : F.Good) (P : ProtoCfg) (hP : P.Good)
         rw [cbSync_seq_plain F s v rest hv, ignoredOnWire_seq_plain F s v rest hv]
         have h0 : s.outLen ≠ 0 := by omega
         have h1' : s.outLen ≠ 1 := by omega
-        simp only [respond, hbs, if_true, hc, hew, h1, hnr]
+        simp only [respondCore, hbs, if_true, hc, hew, h1, hnr]
         rw [takeOut_exact P _ _ hlen]
         have hm : (v :: rest).map (xfer τ) = v :: rest := map_xfer_id τ _ (fun w hw => (hall w hw).2)
         simp only [Res.bind, hm]
@@ -279,7 +301,7 @@ theorem out_agree_plain (F : Facts18) (hF : F.Good) (P : ProtoCfg) (hP : P.Good)
     have hcond : ¬ (s.style = .wrapped ∧ 2 ≤ s.outLen) := fun h => hst h.1
     rw [if_neg hcond] at hok
     rw [hwo, cbSync_seq_plain F s r [] hr, ignoredOnWire_seq_plain F s r [] hr]
-    simp only [respond, hbs, if_false, hb, first, hc, hew, hiob.2 hst]
+    simp only [respondCore, hbs, if_false, hb, first, hc, hew, hiob.2 hst]
     cases hnr : s.noReturn
     · rw [hnr] at hok
       simp at hok
@@ -292,13 +314,13 @@ theorem out_agree_plain (F : Facts18) (hF : F.Good) (P : ProtoCfg) (hP : P.Good)
 theorem wireView_fault (s : Sig) (c : String) : wireView s (.fault c : Res Val) = .fault c := rfl
 
 /-- `NullServer` agrees with the wire for every signature, every program and every conformant call -/
-theorem null_eq_wire (F : Facts18) (hF : F.Good) (P : ProtoCfg) (hP : P.Good) (τ : Val → Val)
+theorem null_eq_wire_core (F : Facts18) (hF : F.Good) (P : ProtoCfg) (hP : P.Good) (τ : Val → Val)
     (s : Sig) (impl : List Val → Result) (pos : List Val) (kw : List (String × Val))
     (hprog : ProgramOkOn τ s impl (nullRecv F s pos kw)) (hkw : KwOk F kw) (hcall : CallOk τ s pos kw) :
-    wireView s (nullCall F s impl pos kw) = wireCall F P τ s impl pos kw := by
+    wireView s (nullCall F s impl pos kw) = wireCallCore F P τ s impl pos kw := by
   have hrecv := recv_agree F P hP τ s pos kw hkw hcall
   rw [hrecv] at hprog
-  unfold nullCall wireCall
+  unfold nullCall wireCallCore
   rw [hrecv]
   unfold wireRecvOf at hprog ⊢
   cases hk : s.inKeys with
@@ -504,33 +526,33 @@ theorem nullRecv_ok (F : Facts18) (s : Sig) (keys : List String) (hk : s.inKeys 
 
 /-- a raised `Fault` reaches the direct caller and the wire client with its fault code; any other
     exception reaches both as a `Server` fault -/
-theorem fault_both (F : Facts18) (P : ProtoCfg) (τ : Val → Val) (s : Sig) (impl : List Val → Result)
+theorem fault_both_core (F : Facts18) (P : ProtoCfg) (τ : Val → Val) (s : Sig) (impl : List Val → Result)
     (keys : List String) (hk : s.inKeys = some keys) (pos : List Val) (kw : List (String × Val))
     (hlen : pos.length ≤ keys.length) (c : String)
     (himpl : ∀ recv, impl recv = .fault c ∨ (impl recv = .error ∧ c = "Server")) :
-    nullCall F s impl pos kw = .fault c ∧ wireCall F P τ s impl pos kw = .fault c := by
+    nullCall F s impl pos kw = .fault c ∧ wireCallCore F P τ s impl pos kw = .fault c := by
   have hnl : ¬ keys.length < pos.length := by omega
   constructor
   · simp only [nullCall, nullRecv, hk, packArgs, hnl, if_false, Res.bind, process]
     rcases himpl (shapeArgs s keys (overlay F keys (fillPos keys.length pos) kw)) with h | ⟨h, hc⟩
     · rw [h]
     · rw [h, hc]
-  · simp only [wireCall, hk, clientPack, hnl, if_false, Res.bind, process]
+  · simp only [wireCallCore, hk, clientPack, hnl, if_false, Res.bind, process]
     rcases himpl (wireRecv P τ s keys (clientOverlay keys (fillPos keys.length pos) kw)) with h | ⟨h, hc⟩
     · rw [h]
     · rw [h, hc]
 
 /-- an `Ignored` return is delivered to the direct caller and sent as empty over the wire -/
-theorem ignored_direct_vs_wire (F : Facts18) (hF : F.Good) (P : ProtoCfg) (hP : P.Good) (τ : Val → Val)
+theorem ignored_direct_vs_wire_core (F : Facts18) (hF : F.Good) (P : ProtoCfg) (hP : P.Good) (τ : Val → Val)
     (s : Sig) (impl : List Val → Result) (keys : List String) (hk : s.inKeys = some keys)
     (pos : List Val) (kw : List (String × Val)) (hlen : pos.length ≤ keys.length) (x : Val)
     (himpl : ∀ recv, impl recv = .value (.ignored x)) :
-    nullCall F s impl pos kw = .ok (.ignored x) ∧ wireCall F P τ s impl pos kw = .ok (emptyReply s) := by
+    nullCall F s impl pos kw = .ok (.ignored x) ∧ wireCallCore F P τ s impl pos kw = .ok (emptyReply s) := by
   have hnl : ¬ keys.length < pos.length := by omega
   obtain ⟨h1, h2⟩ := out_agree_ignored F hF P hP τ s x
   constructor
   · simp only [nullCall, nullRecv, hk, packArgs, hnl, if_false, Res.bind, process, himpl, h1]
-  · simp only [wireCall, hk, clientPack, hnl, if_false, Res.bind, process, himpl, h2]
+  · simp only [wireCallCore, hk, clientPack, hnl, if_false, Res.bind, process, himpl, h2]
 
 /-- when nothing is declared to come back the direct caller gets `None`, whatever the function
     returns (as the wire client does) -/
@@ -583,8 +605,8 @@ theorem takeOut_ne_exc (P : ProtoCfg) : ∀ (n : Nat) (vs : List Val) (e : Strin
     | exc e' => exact absurd h (takeOut_ne_exc P n xs e')
 
 theorem respond_ne_exc (P : ProtoCfg) (τ : Val → Val) (s : Sig) (out : Val) (e : String) :
-    respond P τ s out ≠ .exc e := by
-  unfold respond
+    respondCore P τ s out ≠ .exc e := by
+  unfold respondCore
   split
   · split
     · next vs =>
@@ -607,7 +629,7 @@ theorem null_total (F : Facts18) (hF : F.Good) (s : Sig) (impl : List Val → Re
     (hlen : pos.length ≤ keys.length) (τ : Val → Val) (hprog : ProgramOk τ s impl) :
     ∀ e, nullCall F s impl pos kw ≠ .exc e := by
   intro e h
-  have hP : (ProtoCfg.mk .first .padNone .methodName .nil).Good := ⟨rfl, rfl, rfl⟩
+  have hP : (ProtoCfg.mk .first .padNone .methodName .nil .nil).Good := ⟨rfl, rfl, rfl⟩
   obtain ⟨recv, hr⟩ := nullRecv_ok F s keys hk pos kw hlen
   simp only [nullCall, hr, Res.bind, process] at h
   cases hi : impl recv with
@@ -654,12 +676,12 @@ theorem cbSync_single (F : Facts18) (hF : F.Good) (s : Sig) (r : Val) (hr : r.is
 
 /-- a generator result: the direct caller gets the generator, the wire client the sequence of
     its items -/
-theorem generator_result (F : Facts18) (hF : F.Good) (P : ProtoCfg) (hP : P.Good) (τ : Val → Val)
+theorem generator_result_core (F : Facts18) (hF : F.Good) (P : ProtoCfg) (hP : P.Good) (τ : Val → Val)
     (s : Sig) (impl : List Val → Result) (keys : List String) (hk : s.inKeys = some keys)
     (pos : List Val) (kw : List (String × Val)) (hlen : pos.length ≤ keys.length) (xs : List Val)
     (hnr : s.noReturn = false) (h1 : ¬ (s.style = .wrapped ∧ 2 ≤ s.outLen))
     (himpl : ∀ recv, impl recv = .value (.gen xs)) (hτ : τ (.seq xs) = .seq xs) :
-    nullCall F s impl pos kw = .ok (.gen xs) ∧ wireCall F P τ s impl pos kw = .ok (.seq xs) := by
+    nullCall F s impl pos kw = .ok (.gen xs) ∧ wireCallCore F P τ s impl pos kw = .ok (.seq xs) := by
   have hnl : ¬ keys.length < pos.length := by omega
   have hcb := cbSync_single F hF s (.gen xs) rfl hnr h1
   have hok : ResultOk τ s (.gen xs) := by
@@ -672,25 +694,25 @@ theorem generator_result (F : Facts18) (hF : F.Good) (P : ProtoCfg) (hP : P.Good
   rw [hcb] at hag
   constructor
   · simp only [nullCall, nullRecv, hk, packArgs, hnl, if_false, Res.bind, process, himpl, hcb]
-  · simp only [wireCall, hk, clientPack, hnl, if_false, Res.bind, process, himpl, ← hag]
+  · simp only [wireCallCore, hk, clientPack, hnl, if_false, Res.bind, process, himpl, ← hag]
     rfl
 
 /-! ### each decision in `Facts18.Good` / `ProtoCfg.Good` is needed -/
 
 /-- a protocol that serialises the whole `ctx.out_object` list for the non-wrapped body styles
     answers every such call with a Server fault -/
-theorem wholeList_breaks (P : ProtoCfg) (hP : P.bareOut = .wholeList) (τ : Val → Val)
-    (s : Sig) (hst : s.style ≠ .wrapped) (out : Val) : respond P τ s out = .fault "Server" := by
+theorem wholeList_breaks_core (P : ProtoCfg) (hP : P.bareOut = .wholeList) (τ : Val → Val)
+    (s : Sig) (hst : s.style ≠ .wrapped) (out : Val) : respondCore P τ s out = .fault "Server" := by
   have hbs : s.bodyStyle ≠ .wrapped := fun h => hst ((bodyStyle_wrapped_iff s).1 h)
-  simp [respond, hbs, hP]
+  simp [respondCore, hbs, hP]
 
 /-- replacing a lone `Ignored` by `()` makes a protocol that indexes `ctx.out_object` fail -/
-theorem emptyTuple_breaks (F : Facts18) (hF : F.ignMany = .emptyTuple) (P : ProtoCfg)
+theorem emptyTuple_breaks_core (F : Facts18) (hF : F.ignMany = .emptyTuple) (P : ProtoCfg)
     (hP : P.shortOut = .indexError) (τ : Val → Val) (s : Sig) (hst : s.style = .wrapped)
     (hn : 1 ≤ s.outLen) (x : Val) :
-    respond P τ s (ignoredOnWire F s (.ignored x)) = .fault "Server" := by
+    respondCore P τ s (ignoredOnWire F s (.ignored x)) = .fault "Server" := by
   have hbs := bodyStyle_of_wrapped hst
-  simp only [ignoredOnWire, hF, respond, hbs, if_true]
+  simp only [ignoredOnWire, hF, respondCore, hbs, if_true]
   match h : s.outLen, hn with
   | n + 1, _ => simp [takeOut, hP, Res.bind]
 
@@ -745,5 +767,96 @@ theorem wrapperOnly_breaks (F : Facts18) (hc : F.cbOrder = .noReturnFirst) (hm :
   have : isEmptyWrapper F s = true := by
     simp [isEmptyWrapper, Sig.outMembers, Sig.outIsWrapper, hst, hm]
   simp [hc, this]
+
+/-! ### the wire path including `_bare_response` -/
+
+theorem bareNoneAs_of_ne_none (P : ProtoCfg) (s : Sig) (v : Val) (h : v.isNone = false) :
+    bareNoneAs P s v = v := by
+  unfold bareNoneAs
+  cases v <;> simp_all [Val.isNone]
+
+theorem viewVal_of_ne_none (P : ProtoCfg) (s : Sig) (v : Val) (h : v.isNone = false) :
+    viewVal P s v = v := by
+  unfold viewVal; split
+  · rfl
+  · exact bareNoneAs_of_ne_none P s v h
+
+theorem null_eq_wire (F : Facts18) (hF : F.Good) (P : ProtoCfg) (hP : P.Good) (τ : Val → Val)
+    (s : Sig) (impl : List Val → Result) (pos : List Val) (kw : List (String × Val))
+    (hprog : ProgramOkOn τ s impl (nullRecv F s pos kw)) (hkw : KwOk F kw) (hcall : CallOk τ s pos kw) :
+    wireViewP P s (nullCall F s impl pos kw) = wireCall F P τ s impl pos kw := by
+  rw [wireCall_eq_map, ← null_eq_wire_core F hF P hP τ s impl pos kw hprog hkw hcall]
+  rfl
+
+theorem fault_both (F : Facts18) (P : ProtoCfg) (τ : Val → Val) (s : Sig) (impl : List Val → Result)
+    (keys : List String) (hk : s.inKeys = some keys) (pos : List Val) (kw : List (String × Val))
+    (hlen : pos.length ≤ keys.length) (c : String)
+    (himpl : ∀ recv, impl recv = .fault c ∨ (impl recv = .error ∧ c = "Server")) :
+    nullCall F s impl pos kw = .fault c ∧ wireCall F P τ s impl pos kw = .fault c := by
+  obtain ⟨h1, h2⟩ := fault_both_core F P τ s impl keys hk pos kw hlen c himpl
+  exact ⟨h1, by rw [wireCall_eq_map, h2]; rfl⟩
+
+theorem ignored_direct_vs_wire (F : Facts18) (hF : F.Good) (P : ProtoCfg) (hP : P.Good) (τ : Val → Val)
+    (s : Sig) (impl : List Val → Result) (keys : List String) (hk : s.inKeys = some keys)
+    (pos : List Val) (kw : List (String × Val)) (hlen : pos.length ≤ keys.length) (x : Val)
+    (himpl : ∀ recv, impl recv = .value (.ignored x)) :
+    nullCall F s impl pos kw = .ok (.ignored x) ∧
+    wireCall F P τ s impl pos kw = .ok (viewVal P s (emptyReply s)) := by
+  obtain ⟨h1, h2⟩ := ignored_direct_vs_wire_core F hF P hP τ s impl keys hk pos kw hlen x himpl
+  exact ⟨h1, by rw [wireCall_eq_map, h2]; rfl⟩
+
+theorem generator_result (F : Facts18) (hF : F.Good) (P : ProtoCfg) (hP : P.Good) (τ : Val → Val)
+    (s : Sig) (impl : List Val → Result) (keys : List String) (hk : s.inKeys = some keys)
+    (pos : List Val) (kw : List (String × Val)) (hlen : pos.length ≤ keys.length) (xs : List Val)
+    (hnr : s.noReturn = false) (h1 : ¬ (s.style = .wrapped ∧ 2 ≤ s.outLen))
+    (himpl : ∀ recv, impl recv = .value (.gen xs)) (hτ : τ (.seq xs) = .seq xs) :
+    nullCall F s impl pos kw = .ok (.gen xs) ∧ wireCall F P τ s impl pos kw = .ok (.seq xs) := by
+  obtain ⟨h1', h2⟩ := generator_result_core F hF P hP τ s impl keys hk pos kw hlen xs hnr h1 himpl hτ
+  refine ⟨h1', ?_⟩
+  rw [wireCall_eq_map, h2]
+  simp only [Res.map]
+  rw [viewVal_of_ne_none P s _ rfl]
+
+theorem wholeList_breaks (P : ProtoCfg) (hP : P.bareOut = .wholeList) (τ : Val → Val)
+    (s : Sig) (hst : s.style ≠ .wrapped) (out : Val) : respond P τ s out = .fault "Server" := by
+  unfold respond; rw [wholeList_breaks_core P hP τ s hst out]; rfl
+
+theorem emptyTuple_breaks (F : Facts18) (hF : F.ignMany = .emptyTuple) (P : ProtoCfg)
+    (hP : P.shortOut = .indexError) (τ : Val → Val) (s : Sig) (hst : s.style = .wrapped)
+    (hn : 1 ≤ s.outLen) (x : Val) :
+    respond P τ s (ignoredOnWire F s (.ignored x)) = .fault "Server" := by
+  unfold respond; rw [emptyTuple_breaks_core F hF P hP τ s hst hn x]; rfl
+
+/-- the effect of `_bare_response`, whichever way the protocol goes: a `None` returned where a
+    member-less class is declared arrives as `None` or as an empty instance of that class, and
+    everything else is untouched -/
+theorem viewVal_cases (P : ProtoCfg) (s : Sig) (v : Val) :
+    viewVal P s v = v ∨
+    (∃ cls, P.bareNone = .emptyInstance ∧ s.style ≠ .wrapped ∧ s.returns = .one (.complex cls []) ∧
+      v = .none ∧ viewVal P s v = .obj cls []) := by
+  unfold viewVal
+  split
+  · exact Or.inl rfl
+  · next hst =>
+    cases hb : P.bareNone with
+    | nil => left; simp [bareNoneAs, hb]
+    | emptyInstance =>
+      cases hr : s.returns with
+      | none => left; simp [bareNoneAs, hr]
+      | many n => left; simp [bareNoneAs, hr]
+      | one k =>
+        cases k with
+        | prim => left; simp [bareNoneAs, hr]
+        | array => left; simp [bareNoneAs, hr]
+        | complex cls fs =>
+          cases fs with
+          | cons f fs => left; simp [bareNoneAs, hr]
+          | nil =>
+            cases v with
+            | none => right; exact ⟨cls, rfl, hst, rfl, rfl, by simp [bareNoneAs, hb, hr]⟩
+            | _ => left; simp [bareNoneAs, hb, hr]
+
+theorem viewVal_nil (P : ProtoCfg) (h : P.bareNone = .nil) (s : Sig) (v : Val) : viewVal P s v = v := by
+  simp [viewVal, bareNoneAs, h]
 
 end SpyneModel.Null
